@@ -52,6 +52,13 @@ fn main() {
         std::process::exit(2);
     };
 
+    // ---- C11 R10: worker of the order-permutation differential (fresh process, prints one hash per call)
+    if let Some(pos) = args.iter().position(|a| a == "--order-worker") {
+        let s: u64 = args.get(pos + 1).and_then(|x| x.parse().ok()).unwrap_or(0);
+        let p: u8 = args.get(pos + 2).and_then(|x| x.parse().ok()).unwrap_or(0);
+        std::process::exit(props::c11_order::worker_main(s, p));
+    }
+
     // ---- C20 differential: dump the outputs of this build / compare two dumps
     if let Some(file) = arg_value(&args, "--dump") {
         let d = props::c20::dump(seed);
